@@ -247,6 +247,11 @@ func postDirect(seed uint64, tier string, args []string, w *bufio.Writer) {
 		fails++
 		fmt.Fprintf(w, "DIRECT-FAIL key=post.%s mode=counters\n", why)
 	}
+	// IO.Close with handlers still queued: whatever Close does with them, none runs off the loop goroutine or out of order
+	if ok, why := postCloseWithQueued(); !ok {
+		fails++
+		fmt.Fprintf(w, "DIRECT-FAIL key=post.%s mode=close-with-queued-handlers\n", why)
+	}
 	// the library's own cross-goroutine hand-off: AsyncHandshake dials on another goroutine and must deliver the
 	// completion (state change included) through Post, on the loop goroutine
 	ho := 6
@@ -689,6 +694,77 @@ func postWhileArming(posters int, d time.Duration) (bool, string, int) {
 		return why == "", why, int(atomic.LoadInt64(&posted))
 	case <-time.After(d + 60*time.Second):
 		return false, "loop-deadlocked", int(atomic.LoadInt64(&posted))
+	}
+}
+
+// postCloseWithQueued: (1) the loop goroutine is inside a posted handler, another handler is queued, a third goroutine closes
+// the IO context: the queued handler must not run on that goroutine; (2) a posted handler posts another one and closes the
+// IO context with two earlier posts still waiting in its batch: the later post must not overtake them.
+func postCloseWithQueued() (bool, string) {
+	result := make(chan string, 1)
+	go func() {
+		runtime.LockOSThread()
+		defer runtime.UnlockOSThread()
+		loopTid := syscall.Gettid()
+		// (1)
+		ioc, err := sonic.NewIO()
+		if err != nil {
+			result <- "newio"
+			return
+		}
+		inH1, release, closed := make(chan struct{}), make(chan struct{}), make(chan struct{})
+		var h2tid int32
+		_ = ioc.Post(func() { close(inH1); <-release })
+		go func() {
+			<-inH1
+			_ = ioc.Post(func() { atomic.StoreInt32(&h2tid, int32(syscall.Gettid())) })
+			_ = ioc.Close()
+			close(closed)
+			close(release)
+		}()
+		_ = ioc.RunOneFor(time.Second) // runs H1, which waits for the closer
+		select {
+		case <-closed:
+		case <-time.After(5 * time.Second):
+			result <- "post-blocked-forever"
+			return
+		}
+		if t := atomic.LoadInt32(&h2tid); t != 0 && int(t) != loopTid {
+			result <- "handler-off-loop-thread"
+			return
+		}
+		// (2)
+		ioc2, err := sonic.NewIO()
+		if err != nil {
+			result <- "newio"
+			return
+		}
+		var order []int
+		_ = ioc2.Post(func() {
+			order = append(order, 1)
+			_ = ioc2.Post(func() { order = append(order, 4) })
+			_ = ioc2.Close()
+		})
+		_ = ioc2.Post(func() { order = append(order, 2) })
+		_ = ioc2.Post(func() { order = append(order, 3) })
+		for i := 0; i < 3; i++ {
+			_, _ = ioc2.PollOne()
+		}
+		last := 0
+		for _, k := range order {
+			if k < last {
+				result <- "per-poster-order-violated"
+				return
+			}
+			last = k
+		}
+		result <- ""
+	}()
+	select {
+	case why := <-result:
+		return why == "", why
+	case <-time.After(30 * time.Second):
+		return false, "loop-deadlocked"
 	}
 }
 
